@@ -178,6 +178,10 @@ pub struct ArgSpec {
     /// same definition, reached through another builder history)
     #[serde(skip_serializing_if = "is_default")]
     pub setter_history: bool,
+    /// call every option-valued setter first with a decoy value; the wanted value (or an explicit reset where the
+    /// description has none) follows, so the outcome is the same definition
+    #[serde(skip_serializing_if = "is_default")]
+    pub decoy_history: bool,
     #[serde(skip_serializing_if = "is_default")]
     pub required_if_eq_any: Vec<(String, String)>,
     #[serde(skip_serializing_if = "is_default")]
@@ -267,6 +271,15 @@ pub struct Settings {
     /// build the command with explicit positional indices and the positionals declared in reverse order (the
     /// description keeps listing them in index order)
     pub positionals_declared_backwards: bool,
+    /// construction route (same definition, other builder calls): bit 0 arguments through one `Command::args` call,
+    /// bit 1 every argument passed through `Command::mut_arg` (in declaration order) after it was added, bit 2
+    /// `Command::mut_args` identity pass, bit 3 subcommands through one `Command::subcommands` call, bit 4 every
+    /// subcommand passed through `Command::mut_subcommand`, bit 5 groups through `Command::groups` + `mut_group`
+    #[serde(skip_serializing_if = "is_default")]
+    pub route: u8,
+    /// option-valued and boolean setters of the command called with a decoy / the opposite value first
+    #[serde(skip_serializing_if = "is_default")]
+    pub decoy_history: bool,
     #[serde(skip_serializing_if = "is_default")]
     pub disable_help_flag: bool,
     #[serde(skip_serializing_if = "is_default")]
@@ -426,6 +439,65 @@ fn pred(p: &Pred) -> ArgPredicate {
 impl ArgSpec {
     pub fn to_clap(&self) -> Arg {
         let mut a = Arg::new(self.id.clone());
+        if self.decoy_history {
+            use clap::builder::Resettable::Reset;
+            // decoys first ...
+            a = a
+                .short('Q')
+                .long("decoy-long")
+                .action(ArgAction::Count)
+                .num_args(5)
+                .value_delimiter(';')
+                .value_terminator(";")
+                .default_value("decoy-default")
+                .default_missing_value("decoy-missing")
+                .value_parser(clap::value_parser!(u8))
+                .index(7)
+                .help("decoy help")
+                .long_help("decoy long help")
+                .display_order(99)
+                .value_name("DECOY")
+                .value_hint(clap::ValueHint::FilePath)
+                .group("decoy_group")
+                .require_equals(!self.require_equals)
+                .ignore_case(!self.ignore_case)
+                .last(!self.last)
+                .trailing_var_arg(!self.trailing_var_arg)
+                .allow_hyphen_values(!self.allow_hyphen_values)
+                .global(!self.global);
+            {
+                // (a variable that is set, so that a reset that does not take is visible as an env-sourced value)
+                let _g = ENV_LOCK.lock().unwrap_or_else(|e| e.into_inner());
+                std::env::set_var("VERIF_DECOY_ENV", "decoy-env");
+                a = a.env("VERIF_DECOY_ENV");
+                std::env::remove_var("VERIF_DECOY_ENV");
+            }
+            // ... then an explicit reset of each; the wanted values follow below
+            a = a
+                .short(Reset)
+                .long(Reset)
+                .action(Reset)
+                .num_args(Reset)
+                .value_delimiter(Reset)
+                .value_terminator(Reset)
+                .default_value(Reset)
+                .default_missing_value(Reset)
+                .env(Reset)
+                .value_parser(Reset)
+                .index(Reset)
+                .help(Reset)
+                .long_help(Reset)
+                .display_order(Reset)
+                .value_name(Reset)
+                .value_hint(Reset)
+                .group(Reset)
+                .require_equals(self.require_equals)
+                .ignore_case(self.ignore_case)
+                .last(self.last)
+                .trailing_var_arg(self.trailing_var_arg)
+                .allow_hyphen_values(self.allow_hyphen_values)
+                .global(self.global);
+        }
         if let Some(c) = self.short {
             a = a.short(c);
         }
@@ -439,10 +511,12 @@ impl ArgSpec {
             a = if *vis { a.visible_short_alias(*c) } else { a.short_alias(*c) };
         }
         // `action_inferred`: leave the action to the library's default inference (value-taking arguments: Append for a
-        // positional with an unbounded number of values, Set otherwise); `action` states what that must come out as
+        // positional with an unbounded number of values, Set otherwise; SetTrue for `num_args(0)`); `action` states what that must come out as
         let inferable = match self.action {
             Action::Append => self.is_positional() && self.num_args.map(|(_, hi)| hi == usize::MAX).unwrap_or(false),
             Action::Set => !(self.is_positional() && self.num_args.map(|(_, hi)| hi == usize::MAX).unwrap_or(false)) && self.num_args.map(|(_, hi)| hi > 0).unwrap_or(true),
+            // a flag declared through `num_args(0)` alone
+            Action::SetTrue => !self.is_positional() && self.num_args == Some((0, 0)),
             _ => false,
         };
         if !(self.action_inferred && inferable) {
@@ -623,6 +697,76 @@ impl CmdSpec {
     pub fn to_clap(&self) -> Command {
         let s = &self.settings;
         let mut c = Command::new(self.name.clone());
+        if s.decoy_history {
+            use clap::builder::Resettable::Reset;
+            c = c
+                .bin_name("decoy-bin")
+                .display_name("decoy-display")
+                .short_flag('Q')
+                .about("decoy about")
+                .long_about("decoy long about")
+                .before_help("decoy before")
+                .after_help("decoy after")
+                .before_long_help("decoy before long")
+                .after_long_help("decoy after long")
+                .author("decoy author")
+                .version("0.0.0-decoy")
+                .long_version("0.0.0-decoy-long")
+                .help_template("decoy {name}")
+                .override_usage("decoy usage")
+                .override_help("decoy help")
+                .subcommand_help_heading("DECOYS")
+                .subcommand_value_name("DECOY")
+                .display_order(99)
+                .args_conflicts_with_subcommands(!s.args_conflicts_with_subcommands)
+                .subcommand_precedence_over_arg(!s.subcommand_precedence_over_arg)
+                .subcommand_negates_reqs(!s.subcommand_negates_reqs)
+                .subcommand_required(!s.subcommand_required)
+                .arg_required_else_help(!s.arg_required_else_help)
+                .allow_missing_positional(!s.allow_missing_positional)
+                .ignore_errors(!s.ignore_errors)
+                .multicall(!s.multicall)
+                .no_binary_name(!s.no_binary_name)
+                .allow_external_subcommands(!s.allow_external_subcommands)
+                .disable_help_flag(!s.disable_help_flag)
+                .disable_help_subcommand(!s.disable_help_subcommand)
+                .disable_version_flag(!s.disable_version_flag)
+                .propagate_version(!s.propagate_version)
+                .flatten_help(!s.flatten_help)
+                .next_line_help(!s.next_line_help)
+                .hide_possible_values(!s.hide_possible_values)
+                .dont_collapse_args_in_usage(!s.dont_collapse_args_in_usage)
+                .disable_colored_help(!s.disable_colored_help)
+                .help_expected(!s.help_expected)
+                .hide(!self.hide);
+            if !s.inherit_globals {
+                c = c
+                    .infer_long_args(!s.infer_long_args)
+                    .infer_subcommands(!s.infer_subcommands)
+                    .args_override_self(!s.args_override_self)
+                    .dont_delimit_trailing_values(!s.dont_delimit_trailing_values);
+            }
+            c = c
+                .bin_name(Reset)
+                .display_name(Reset)
+                .short_flag(Reset)
+                .about(Reset)
+                .long_about(Reset)
+                .before_help(Reset)
+                .after_help(Reset)
+                .before_long_help(Reset)
+                .after_long_help(Reset)
+                .author(Reset)
+                .version(Reset)
+                .long_version(Reset)
+                .help_template(Reset)
+                .override_usage(Reset)
+                .override_help(Reset)
+                .subcommand_help_heading(Reset)
+                .subcommand_value_name(Reset)
+                .display_order(Reset)
+                .hide(self.hide);
+        }
         if let Some(b) = &self.bin_name {
             c = c.bin_name(b.clone());
         }
@@ -746,12 +890,36 @@ impl CmdSpec {
             for a in pos.into_iter().rev() {
                 c = c.arg(a);
             }
+        } else if s.route & 1 != 0 {
+            c = c.args(self.args.iter().map(|a| a.to_clap()).collect::<Vec<_>>());
         } else {
             for a in &self.args {
                 c = c.arg(a.to_clap());
             }
         }
-        for g in &self.groups {
+        if s.route & 2 != 0 {
+            // `mut_arg` moves the argument to the end of the list: going through all of them in order keeps the order
+            for a in &self.args {
+                c = c.mut_arg(a.id.clone(), |x| x.hide(a.hide));
+            }
+        }
+        if s.route & 4 != 0 {
+            c = c.mut_args(|x| x);
+        }
+        if s.route & 32 != 0 {
+            let mk = |g: &GroupSpec| {
+                let mut cg = ArgGroup::new(g.id.clone()).required(g.required).multiple(g.multiple);
+                for a in &g.args {
+                    cg = cg.arg(a.clone());
+                }
+                cg.requires_all(g.requires.iter().cloned()).conflicts_with_all(g.conflicts_with.iter().cloned())
+            };
+            c = c.groups(self.groups.iter().map(mk).collect::<Vec<_>>());
+            for g in &self.groups {
+                c = c.mut_group(g.id.clone(), |x| x.required(g.required));
+            }
+        }
+        for g in self.groups.iter().filter(|_| s.route & 32 == 0) {
             let mut cg = ArgGroup::new(g.id.clone())
                 .args(g.args.iter().cloned())
                 .required(g.required)
@@ -764,8 +932,17 @@ impl CmdSpec {
             }
             c = c.group(cg);
         }
-        for sc in &self.subs {
-            c = c.subcommand(sc.to_clap());
+        if s.route & 8 != 0 {
+            c = c.subcommands(self.subs.iter().map(|sc| sc.to_clap()).collect::<Vec<_>>());
+        } else {
+            for sc in &self.subs {
+                c = c.subcommand(sc.to_clap());
+            }
+        }
+        if s.route & 16 != 0 {
+            for sc in &self.subs {
+                c = c.mut_subcommand(sc.name.clone(), |x| x.hide(sc.hide));
+            }
         }
         c
     }
